@@ -1,7 +1,6 @@
 SPECIFICATION Spec
-CONSTANTS Kinds = {"buf", "hmeta", "rawdata", "geninfo", "cxxref", "bare"}
+CONSTANTS Kinds = {"buf", "hmeta", "geninfo", "cxxref", "bare"}
   NH = 3 NObj = 3 Max = 4 MaxExtra = 1 MaxTries = 2 AsFound = FALSE
-CONSTRAINT QuickBound
 VIEW View
 INVARIANTS TypeOK AliveIffReferenced CountExact NoDangling ObsAgrees
 PROPERTIES RefusedUnchanged DestroyedOnce NoResurrection ReplaceOnce
